@@ -70,6 +70,9 @@ def check_format(ctx, b, fmt, label):
                         ctx.violation(site, 'missing-number', 'exponent %s is not in the %s output' % (x, fmt), replay)
                         return
         return
+    if fmt == 'pqs':
+        # PQS puts the shell letter in the first column of the shell's first row, directly in front of a wide exponent
+        text = re.sub(r'(?m)^([A-Z]{1,3})(?=[\d.])', r'\1 ', text)
     have = text_values(text)
     if m is None or m[0] != 'ok':
         if m is not None:
@@ -133,6 +136,13 @@ def work_generated(ctx, seed):
     rng = random.Random(seed)
     from basis_set_exchange import writers
     b = gen.gen_basis(rng, ecp_prob=0.5, ecp_only_prob=0.1, cart=rng.random() < 0.2)
+    if seed % 3 == 0:
+        # an exponent with very many integer digits (the -J / ANO-RCC style steep functions): fixed-width fields overflow
+        shs = [sh for el in b['elements'].values() for sh in el.get('electron_shells', [])]
+        if shs:
+            sh = rng.choice(shs)
+            k = max(range(len(sh['exponents'])), key=lambda i: oracle.dec(sh['exponents'][i]))
+            sh['exponents'][k] = '%d.%d' % (rng.randint(10 ** 6, 10 ** rng.randint(7, 13)), rng.randint(1, 9999))
     if seed % 7 == 0:
         # a function type most formats cannot express: must be refused, not written without it
         b['function_types'] = sorted(set(b['function_types']) | {'sto'})
@@ -154,6 +164,7 @@ def run(ctx):
         names = store.sample_names(ctx.rng, 40, md)
         ecp_only = [k for k, v in md.items() if set(v['function_types']) <= {'scalar_ecp', 'spinorbit_ecp'}]
         names += ctx.rng.sample(ecp_only, min(3, len(ecp_only)))
+        names += [k for k in ('aug-cc-pvtz-j', 'ano-rcc', '6-31g-j') if k in md]      # exponents with 8..11 integer digits
         pairs = [(n, md[n]['latest_version']) for n in names]
     store.parallel(ctx, work_store, pairs)
     store.parallel(ctx, work_generated, [ctx.seed * 59 + i for i in range(ctx.budget(80, 4000))])
